@@ -38,6 +38,8 @@ EXTRA = [
     dict(pre=[], effs=[9, 3], effcond=2, inv=[0], n_bounds="upper", goal=[0], sym=["x0", "d"]),    # conditional increase + decrease under invariant and bound
     dict(pre=[], effs=[13, 10], effcond=0, inv=[1], goal=[12], sym=[]),              # forall conditional delete + add on p, invariant reads p(o1)
     dict(pre=[], effs=[4, 5], effcond=4, n_bounds="both", goal=[0], sym=["c1", "c2"]),  # assignment conflict only when the condition fires
+    dict(pre=[], effs=[12, 10], goal=[0, 2], sym=[]),                                # two goals: is_goal must look at all of them
+    dict(pre=[], effs=[10], goal=[2, 0, 12], sym=[]),
 ]
 
 
